@@ -43,7 +43,8 @@ def imm(rng):
     if k == 6:
         return "0b" + bin(rng.randrange(0, 256))[2:]
     if k == 7:
-        return "'" + rng.choice("aZ09 ") + "'"
+        return "'" + rng.choice(["a", "Z", "0", " ", "\\n", "\\t", "\\\\", "\\'", "\\0", "\\u00e9",
+                                 "\\u03bb", "\\u0041", "é", "\\r"]) + "'"
     if k == 8:
         return str(rng.randrange(-2**31, 2**32))
     return "-" + hex(rng.randrange(0, 2**31 + 2))
@@ -114,7 +115,8 @@ def statement(rng, m=None):
     return s
 
 
-DIRECTIVES = [".text", ".data", ".word 1, 2, 3", ".byte 1 2", ".half 0x10", ".asciz \"hi\"", ".ascii \"a b\"",
+DIRECTIVES = [".asciz \"a\\u03bbb\\n\" ", ".ascii \"\\u0041\\u00e9\"", ".string \"t\\tq\\\"x\"",
+              ".text", ".data", ".word 1, 2, 3", ".byte 1 2", ".half 0x10", ".asciz \"hi\"", ".ascii \"a b\"",
               ".string \"x\\n\"", ".align 2", ".space 16", ".globl main", ".global f", ".eqv X 5", ".section .text",
               ".extern foo", ".float 1", ".double 2", ".dword 3", ".macro foo", ".endmacro", ".include \"inc.s\"",
               ".word", ".word 1\n 2\n 3", ".bogus 1", ".Text", ".DATA", ".asciz 5", ".align x"]
